@@ -1,11 +1,192 @@
 package main
 
 import (
+	"bufio"
+	"encoding/json"
 	"fmt"
 	"os"
+	"os/exec"
+	"path/filepath"
+	"sort"
+	"strings"
+	"sync"
 )
 
+// check selftest determinism  — same seed, many processes, GOMAXPROCS 1/4/16: the complete
+//                               per-run digests (signature, scenario, event trace, decisions)
+//                               must be identical.
+// check selftest baseline     — the repository's own test suite on the TRANSFORMED tree with no
+//                               simulated world active must give the baseline's passes.
 func cmdSelftest(args []string) int {
-	fmt.Fprintln(os.Stderr, "selftest: not built yet")
+	if len(args) < 1 {
+		fmt.Fprintln(os.Stderr, "usage: check selftest determinism|baseline")
+		return 2
+	}
+	s, err := buildScratch()
+	defer s.cleanup()
+	if err != nil {
+		fmt.Fprintf(os.Stderr, "BUILD-TROUBLE: %v\n", err)
+		return 2
+	}
+	switch args[0] {
+	case "determinism":
+		return selftestDeterminism(s, args[1:])
+	case "baseline":
+		return selftestBaseline(s)
+	}
 	return 2
+}
+
+func selftestDeterminism(s *scratch, args []string) int {
+	ids := []string{"C09", "C10", "C11", "C15", "C16", "C17", "C18", "C20"}
+	if len(args) > 0 {
+		ids = args
+	}
+	nRuns := map[string]int{"C16": 150, "C20": 500}
+	type job struct {
+		id    string
+		seed  int
+		gmp   int
+		rep   int
+		out   string
+	}
+	var jobs []job
+	for _, id := range ids {
+		for _, seed := range []int{11, 12} {
+			for _, g := range []int{1, 4, 16} {
+				for rep := 0; rep < 2; rep++ {
+					jobs = append(jobs, job{id, seed, g, rep, filepath.Join(s.Dir, fmt.Sprintf("det-%s-%d-%d-%d.json", id, seed, g, rep))})
+				}
+			}
+		}
+	}
+	sem := make(chan struct{}, 12)
+	var wg sync.WaitGroup
+	errs := make([]error, len(jobs))
+	for i, j := range jobs {
+		wg.Add(1)
+		sem <- struct{}{}
+		go func(i int, j job) {
+			defer wg.Done()
+			defer func() { <-sem }()
+			n := nRuns[j.id]
+			if n == 0 {
+				n = 400
+			}
+			params := fmt.Sprintf("digest=%d", n)
+			if pc := props[j.id]; pc != nil && pc.Quick.Params != "" {
+				params += "," + pc.Quick.Params
+			}
+			cmd := exec.Command(s.Bin, j.id, "run", "-seed", fmt.Sprint(j.seed), "-from", "0", "-to", fmt.Sprint(n), "-shrink", "0", "-params", params, "-out", j.out)
+			cmd.Env = append(os.Environ(), fmt.Sprintf("GOMAXPROCS=%d", j.gmp))
+			if out, err := cmd.CombinedOutput(); err != nil {
+				errs[i] = fmt.Errorf("%s seed %d: %v\n%s", j.id, j.seed, err, string(out))
+			}
+		}(i, j)
+	}
+	wg.Wait()
+	for _, e := range errs {
+		if e != nil {
+			fmt.Fprintln(os.Stderr, "RUN-TROUBLE:", e)
+			return 2
+		}
+	}
+	bad := 0
+	ref := map[string]map[string]string{}
+	for _, j := range jobs {
+		b, err := os.ReadFile(j.out)
+		if err != nil {
+			fmt.Fprintln(os.Stderr, err)
+			return 2
+		}
+		var r result
+		json.Unmarshal(b, &r)
+		key := fmt.Sprintf("%s/%d", j.id, j.seed)
+		if ref[key] == nil {
+			ref[key] = r.Digests
+			continue
+		}
+		var diff []string
+		for k, v := range ref[key] {
+			if r.Digests[k] != v {
+				diff = append(diff, k)
+			}
+		}
+		if len(diff) > 0 || len(r.Digests) != len(ref[key]) {
+			sort.Strings(diff)
+			fmt.Printf("NONDETERMINISM %s seed=%d GOMAXPROCS=%d rep=%d: runs %v differ\n", j.id, j.seed, j.gmp, j.rep, diff)
+			bad++
+		}
+	}
+	fmt.Printf("selftest determinism: %d processes (GOMAXPROCS 1/4/16 x 2 seeds x 2 repeats x %d properties), %d mismatching\n", len(jobs), len(ids), bad)
+	if bad > 0 {
+		return 1
+	}
+	return 0
+}
+
+func selftestBaseline(s *scratch) int {
+	b, err := os.ReadFile("/root/.vp/BASELINE.json")
+	var want []string
+	if err == nil {
+		var bl struct {
+			StablePass []string `json:"stable_pass"`
+		}
+		json.Unmarshal(b, &bl)
+		want = bl.StablePass
+	}
+	cmd := exec.Command("go", "test", "-json", "-vet=off", "-count=1", "./pkg/...", "./stdlib/json", "./stdlib/file")
+	cmd.Dir = s.Src
+	cmd.Env = goEnv()
+	out, _ := cmd.StdoutPipe()
+	cmd.Stderr = nil
+	if err := cmd.Start(); err != nil {
+		fmt.Fprintln(os.Stderr, err)
+		return 2
+	}
+	pass := map[string]bool{}
+	fail := map[string]bool{}
+	sc := bufio.NewScanner(out)
+	sc.Buffer(make([]byte, 1<<20), 1<<24)
+	for sc.Scan() {
+		var ev struct {
+			Action, Package, Test string
+		}
+		if json.Unmarshal(sc.Bytes(), &ev) != nil || ev.Test == "" {
+			continue
+		}
+		name := ev.Package + "::" + ev.Test
+		switch ev.Action {
+		case "pass":
+			pass[name] = true
+		case "fail":
+			fail[name] = true
+		}
+	}
+	cmd.Wait()
+	missing := []string{}
+	for _, w := range want {
+		if !pass[w] {
+			missing = append(missing, w)
+		}
+	}
+	extraFail := []string{}
+	for f := range fail {
+		if !strings.Contains(f, "/pkg/server::") {
+			extraFail = append(extraFail, f)
+		}
+	}
+	sort.Strings(missing)
+	sort.Strings(extraFail)
+	fmt.Printf("selftest baseline: %d tests passed on the transformed tree; baseline wants %d, missing %d, failing outside pkg/server %d\n", len(pass), len(want), len(missing), len(extraFail))
+	for _, m := range missing {
+		fmt.Println("  MISSING", m)
+	}
+	for _, m := range extraFail {
+		fmt.Println("  FAIL", m)
+	}
+	if len(missing) > 0 || len(extraFail) > 0 {
+		return 1
+	}
+	return 0
 }
